@@ -519,3 +519,81 @@ benign("reopen_offset_unconditional", ["C12", "C16"], "src/logs.rs",
         }""",
        """        block_offset = log_file_size % BLOCK_SIZE_BYTES;
         log::debug!("Continuing at block offset {}", block_offset);""")
+
+# ---- more behaviour-preserving refactorings
+benign("get_capture_extracted_into_guarded_helper", ["C05", "C01", "C03", "C06", "C09", "C11"], "src/db.rs",
+       """        let mut db_fields_guard = self.guarded_fields.lock();
+        let snapshot: u64 = if let Some(snapshot_handle) = read_options.snapshot.as_ref() {
+            snapshot_handle.sequence_number()
+        } else {
+            db_fields_guard.version_set.get_prev_sequence_number()
+        };
+        // The active memtable must be captured together with the immutable memtable and the current
+        // version while the lock is held. Otherwise a memtable rotation followed by a flush can
+        // slip in between and the read would miss the rotated entries in every source.
+        let memtable = self.memtable();
+        let maybe_immutable_memtable = db_fields_guard.maybe_immutable_memtable.clone();
+        let current_version = db_fields_guard.version_set.get_current_version();
+""",
+       """        let mut db_fields_guard = self.guarded_fields.lock();
+        let (snapshot, memtable, maybe_immutable_memtable, current_version) =
+            DB::capture_read_state(self, &mut db_fields_guard, &read_options);
+""")
+# the helper itself is added by a second replacement in the same file: emulate with a combined patch below
+M[-1]["extra"] = [("src/db.rs",
+                   """    /// Get a shared reference to the memtable.
+    fn memtable(&self) -> Arc<Box<dyn MemTable>> {""",
+                   """    /// Capture everything a point read needs while the database lock is held.
+    #[allow(clippy::type_complexity)]
+    fn capture_read_state(
+        &self,
+        db_fields_guard: &mut MutexGuard<GuardedDbFields>,
+        read_options: &ReadOptions,
+    ) -> (
+        u64,
+        Arc<Box<dyn MemTable>>,
+        Option<Arc<Box<dyn MemTable>>>,
+        SharedNode<Version>,
+    ) {
+        let snapshot: u64 = if let Some(snapshot_handle) = read_options.snapshot.as_ref() {
+            snapshot_handle.sequence_number()
+        } else {
+            db_fields_guard.version_set.get_prev_sequence_number()
+        };
+        let memtable = self.memtable();
+        let maybe_immutable_memtable = db_fields_guard.maybe_immutable_memtable.clone();
+        let current_version = db_fields_guard.version_set.get_current_version();
+        (snapshot, memtable, maybe_immutable_memtable, current_version)
+    }
+
+    /// Get a shared reference to the memtable.
+    fn memtable(&self) -> Arc<Box<dyn MemTable>> {""")]
+benign("get_uses_unlocked_instead_of_unlocked_fair", ["C05", "C01", "C03", "C09", "C08"], "src/db.rs",
+       """        let get_result = parking_lot::MutexGuard::unlocked_fair(
+            &mut db_fields_guard,
+            || -> RainDBResult<Option<Vec<u8>>> {""",
+       """        let get_result = parking_lot::MutexGuard::unlocked(
+            &mut db_fields_guard,
+            || -> RainDBResult<Option<Vec<u8>>> {""")
+benign("question_mark_spelled_out", ["C08", "C02", "C15"], "src/db.rs",
+       """        let mut temp_file = filesystem_provider.create_file(&temp_file_path, false)?;""",
+       """        let mut temp_file = match filesystem_provider.create_file(&temp_file_path, false) {
+            Ok(file) => file,
+            Err(create_err) => return Err(create_err),
+        };""")
+benign("drop_wait_loop_rewritten", ["C09", "C17"], "src/db.rs",
+       """        while db_fields_guard.background_compaction_scheduled {
+            log::info!("Detected pending background work. Waiting for it to finish.");
+            self.background_work_finished_signal
+                .wait(&mut db_fields_guard);
+
+            log::info!("Checking for more background work.");
+        }""",
+       """        loop {
+            if !db_fields_guard.background_compaction_scheduled {
+                break;
+            }
+            log::info!("Detected pending background work. Waiting for it to finish.");
+            self.background_work_finished_signal
+                .wait(&mut db_fields_guard);
+        }""")
